@@ -469,16 +469,26 @@ S_SOURCE = "<s><t/><u k='1'><v/><v/></u><t/></s>"
 S_FILES = {"d1.xml": "<x><y/><z><y/></z></x>", "d2.xml": "<y><y/></y>"}
 S_POOL = ["/", "//*", "//t", "//v/ancestor::*", "//u/@k", "//v[2]/preceding::*", "x:nodeset($r1)", "x:nodeset($r1)//*", "x:nodeset($r1)/a",
           "x:nodeset($r2)/*", "x:nodeset($r1)//b/ancestor-or-self::node()", "x:nodeset($r2)", "document('d1.xml')//*", "document('d1.xml')",
-          "document('d2.xml')//y", "document('d1.xml')//y", "//t[2]", "x:nodeset($r1)/c"]
+          "document('d2.xml')//y", "document('d1.xml')//y", "//t[2]", "x:nodeset($r1)/c",
+          # a fragment with MIXED content: text directly before an element gets its index when it is flushed
+          # (FormatterToSourceTree; seeds C05_e / C12_e), unions and multi-context steps order by index
+          "x:nodeset($r3)/m/text()", "x:nodeset($r3)/m/*", "x:nodeset($r3)/m/node()", "x:nodeset($r3)//@k", "x:nodeset($r3)//n/text()",
+          "x:nodeset($r3)/m/text() | x:nodeset($r3)/m/*", "x:nodeset($r3)//*/node()", "x:nodeset($r3)/m/n | x:nodeset($r3)/m/text()[1]"]
 
 
 def s_sheet(exprs):
     body = []
     for k, e in enumerate(exprs):
         body.append('<xsl:text>&#10;%d:</xsl:text><xsl:for-each select="%s"><xsl:value-of select="generate-id()"/>/<xsl:value-of select="generate-id(ancestor-or-self::node()[last()])"/>,</xsl:for-each>' % (k, e))
+    # R lines: the STRUCTURAL pre-order of each tree (a tree walk, attributes after their element; no index is consulted)
+    walk = ('<xsl:for-each select="%s/descendant-or-self::node()"><xsl:value-of select="generate-id()"/>,'
+            '<xsl:for-each select="@*"><xsl:value-of select="generate-id()"/>,</xsl:for-each></xsl:for-each>')
+    refs = "".join('<xsl:text>&#10;R%d:</xsl:text>' % k + walk % e for k, e in enumerate(["/", "x:nodeset($r1)", "x:nodeset($r2)", "x:nodeset($r3)"]))
     return ('<xsl:stylesheet version="1.0" xmlns:xsl="http://www.w3.org/1999/XSL/Transform" xmlns:x="http://xml.apache.org/xalan">'
             '<xsl:output method="text"/><xsl:variable name="r1"><a><b/></a><c/></xsl:variable><xsl:variable name="r2"><p/><q/></xsl:variable>'
-            '<xsl:template match="/">F:<xsl:value-of select="generate-id(x:nodeset($r1))"/>,<xsl:value-of select="generate-id(x:nodeset($r2))"/>' + "".join(body) + '</xsl:template></xsl:stylesheet>')
+            '<xsl:variable name="r3"><m>x<n k="1">i<o/>j</n>y<o k="2"/>z</m>w<o/></xsl:variable>'
+            '<xsl:template match="/">F:<xsl:value-of select="generate-id(x:nodeset($r1))"/>,<xsl:value-of select="generate-id(x:nodeset($r2))"/>,<xsl:value-of select="generate-id(x:nodeset($r3))"/>'
+            + "".join(body) + refs + '</xsl:template></xsl:stylesheet>')
 
 
 # directed triples: a list that starts with a node of another document, then a fragment root, then nodes (and the
@@ -512,9 +522,23 @@ def s_oracle(case, text):
     lines = text.split("\n")
     frag = set(lines[0][2:].split(","))
     res = {}
+    rank = {}
     for l in lines[1:]:
         k, _, body = l.partition(":")
+        if k.startswith("R"):
+            for pos, i in enumerate(x for x in body.split(",") if x):
+                rank[i] = (k, pos)
+            continue
         res[int(k)] = [tuple(x.split("/")) for x in body.split(",") if x]
+    # order within one tree = the structural pre-order of that tree (element, its attributes, its children)
+    for k, e in enumerate(case["exprs"]):
+        prev = {}
+        for i, t in res.get(k, []):
+            if i in rank:
+                tree, pos = rank[i]
+                if tree in prev and pos < prev[tree]:
+                    return "%s: nodes of one tree are not in document order (structural pre-order of the tree)" % e, None
+                prev[tree] = pos
     ex = case["exprs"]
     if len(res) != len(ex):
         return "output has %d result lines for %d expressions" % (len(res), len(ex)), None
